@@ -9,6 +9,10 @@ import (
 // runPair replays the pairing programmes: registers of G1 and G2 are taken from the reference tables (addition
 // chains), every pairing result is projected to its exponent through the table of e(G1, G2)^v built by repeated
 // multiplication. Each pairing is evaluated through the G1-side and the G2-side API.
+// gtWindow bounds the reference table of the target group; GroupProg.PairW is the same number (K <= 13: three pairings of
+// [K]G1 with [K]G2 and one squaring stay below it).
+const gtWindow = 1024
+
 func runPair(in string) {
 	prog := readProg(in)
 	g1c, g2c := bls12381.NewG1(), bls12381.NewG2()
@@ -16,14 +20,14 @@ func runPair(in string) {
 	all := allRunnersTyped()
 	t1, chk1 := buildTable(all.g1, 64)
 	t2, chk2 := buildTable(all.g2, 64)
-	tt, chkt := buildTable(all.gt, 512)
-	w.Emit(map[string]any{"a": "hdr", "k": kk, "w": 512, "curves": []map[string]any{}})
+	tt, chkt := buildTable(all.gt, gtWindow)
+	w.Emit(map[string]any{"a": "hdr", "k": kk, "w": gtWindow, "curves": []map[string]any{}})
 	for _, c := range []map[string]any{chk1, chk2, chkt} {
 		c["a"] = "table"
 		w.Emit(c)
 	}
 	// non-degeneracy on its own line: e(G1, G2) is not the identity of the target group
-	w.Emit(map[string]any{"a": "nondeg", "genIsOne": all.gt.isid(all.gt.gen), "distinct": len(tt.idx) == 2*512+1})
+	w.Emit(map[string]any{"a": "nondeg", "genIsOne": all.gt.isid(all.gt.gen), "distinct": len(tt.idx) == 2*gtWindow+1})
 	type gtState struct {
 		regs [2]*bls12381.GtElement
 		ints [2]int
